@@ -5,6 +5,7 @@ import petl as etl
 from hypothesis import strategies as st
 
 from pv import gen, codec
+from pv import catgen
 from pv.core import Sub, Fail, exc_fail
 from pv.ref import base as R
 
@@ -49,7 +50,8 @@ def case(draw, tier):
          "upstream": draw(st.sampled_from(["none", "none", "sortfirst", "sortfirst-rev", "wrap", "sortall"])),
          # presorted=True on an input the harness has sorted by the key (a list of lists: the caller's own header and rows
          # then reach the operator directly)
-         "presorted": draw(st.integers(0, 3)) == 0}
+         "presorted": draw(st.integers(0, 3)) == 0,
+         "form": draw(st.sampled_from(["lists", "lists", "lists"] + catgen.FORMS))}
     if op == "conflicts":
         c["missing"] = draw(st.sampled_from([None, None] + p))
         c["fields"] = draw(st.sampled_from([None, ("exclude", hdr[-1]), ("include", hdr[-1]), ("include", list(hdr))]))
@@ -96,7 +98,7 @@ def check(case, ctx):
     mult = Counter(kt)
     ctx.label("op:" + op, "key:" + ("none" if key is None else type(key).__name__), "rows:%d" % min(len(rows), 3))
     ctx.nontrivial(any(v > 1 for v in mult.values()) and any(v == 1 for v in mult.values()))
-    T = codec.snapshot(tbl)
+    T = catgen.shape(codec.snapshot(tbl), case.get("form", "lists"))
     # the upstream sort names its key the way the operator's key spec does (same field name or index)
     k0 = f0 if key is None else (key[0] if isinstance(key, (list, tuple)) else key)
     if up == "sortfirst":
